@@ -81,6 +81,11 @@ func opUntrusted(p []string) string {
 		oracle = "viol:more-token-steps-than-linear-in-the-input"
 	}
 	limit := uint64(2*allocCap + (1 << 20) + 16384*len(data))
+	if p[0] == "cbor" && len(data) > 1000 && (data[0] == 0x5f || data[0] == 0x7f) {
+		// one chunked string, however many hunks it is cut into: what is allocated follows the input (amortised growth),
+		// not the square of the number of hunks
+		limit = uint64((1 << 20) + 64*len(data))
+	}
 	if alloc > limit && oracle == "ok" {
 		oracle = fmt.Sprintf("viol:allocated-%d-bytes-for-%d-bytes-of-input", alloc, len(data))
 	}
@@ -232,6 +237,19 @@ func genUntrusted(tier string, seed uint64) {
 		}
 		emitU("cbor", append([]byte{0x81, 0x7f, 0x62, 0x41, 0x42, 0x60}, headBytes(0x60, ln, 0)...))
 		emitU("cbor", append([]byte{0xa1, 0x61, 0x6b, 0x5f, 0x41, 0x09}, headBytes(0x40, ln, 0)...))
+	}
+	// chunked strings made of very many small hunks
+	for _, nh := range []int{1000, 20000} {
+		for _, major := range []byte{0x40, 0x60} {
+			b := []byte{major | 0x1f}
+			for i := 0; i < nh; i++ {
+				b = append(b, major|2, 0x61, 0x62)
+			}
+			b = append(b, 0xff)
+			emit("untrusted cbor 1 %d %s", tid(reflect.TypeOf((*interface{})(nil)).Elem()), hexOrDash(b))
+			emit("untrusted cbor 1 %d %s", tid(reflect.TypeOf([]byte{})), hexOrDash(b))
+			emit("untrusted cbor 1 %d %s", tid(reflect.TypeOf("")), hexOrDash(b))
+		}
 	}
 	// containers that declare far more entries than the input holds, nested: allocation must follow the input, not the claims
 	for _, d := range []int{1, 2, 16, 256} {
